@@ -197,12 +197,26 @@ def sync_side(exe, a, s, rng, backup, stats, cfg):
         return out
     # provisional hashes survive the failed sync and stay provisional: the same sync fails again
     if anymis and rng.chance(1, 2):
-        r2 = s.run('sync', '--force-empty', '--force-zero', opts=a.opts)
+        pre2 = rng.chance(1, 2)
+        if pre2:
+            # other pending additions: with pre-hash the provisional hashes loaded from the content file must stop the
+            # WHOLE sync again, before any parity is overwritten
+            for _ in range(1 + rng.below(2)): s.fs_create()
+            s.remember()
+        par0 = [a.parity_bytes(l) for l in range(a.nparity)]
+        r2 = s.run('sync', *(['-h'] if pre2 else []), '--force-empty', '--force-zero', opts=a.opts)
         dec3 = fx.decode(a); lay3 = stripes_of(dec3)
         bad = [pos for j, pos in enumerate(todo) if pred[j] == '0' and not pre and all(k == 'b' for (_, _, _, k) in lay3.get(pos, [('', b'', 0, 'c')]))]
         if r2.rc == 0 or bad:
             out.append(('(%s) [second-sync] a second sync after the refused one %s; %s' % (cfg, 'exits 0' if r2.rc == 0 else 'records stripe %d as synced' % bad[0], desc), '\n'.join(s.history)))
             return out
+        if pre2:
+            par1 = [a.parity_bytes(l) for l in range(a.nparity)]
+            for l in range(a.nparity):
+                if par1[l][:len(par0[l])] != par0[l]:
+                    out.append(('(%s) [prehash-parity-touched] a second sync -h found the provisional hash mismatch again but parity level %d was modified; %s' % (cfg, l, desc), '\n'.join(s.history)))
+                    return out
+            stats['prehash_stops'] += 1
     # --force-nocopy drops the provisional hashes: the sync proceeds and the result checks
     if rng.chance(2, 3):
         r3 = s.run('sync', '--force-nocopy', '--force-empty', '--force-zero', opts=a.opts)
